@@ -1,5 +1,295 @@
 package main
 
-import "github.com/consensys/gnark/internal/verifh/vh"
+import (
+	"fmt"
+	"math/big"
+	"strings"
+	"sync"
 
-func hintAdversary(c *vh.Check) {}
+	"github.com/consensys/gnark-crypto/ecc"
+	"github.com/consensys/gnark/constraint"
+	"github.com/consensys/gnark/constraint/solver"
+	"github.com/consensys/gnark/frontend"
+	"github.com/consensys/gnark/internal/verifh/circ"
+	"github.com/consensys/gnark/internal/verifh/ops"
+	"github.com/consensys/gnark/internal/verifh/vh"
+)
+
+// Part E of C05: over the pairing-curve fields the dishonest prover is explored through its
+// hint answers.  Every hint call of the solve is a choice point (default: the honest answer);
+// all executions with <= 2 departures from a finite alphabet are run on the REAL solver of the
+// REAL compiled system; with a wrong claimed output no execution may solve.
+
+var hookCtx sync.Map // compiled system (pointer) -> *vh.Ctx
+
+func init() {
+	constraint.VerifHintHook = func(cs any, id solver.HintID, q *big.Int, in, out []*big.Int, err error) error {
+		v, ok := hookCtx.Load(cs)
+		if !ok || err != nil || len(out) == 0 {
+			return err
+		}
+		x := v.(*vh.Ctx)
+		name := hintName(id)
+		n := len(out)
+		bits := n >= 2
+		for _, o := range out {
+			if o.Sign() != 0 && !(o.IsInt64() && o.Int64() == 1) {
+				bits = false
+			}
+		}
+		modes := 8
+		if bits {
+			modes = 12
+		}
+		m := x.Choose(fmt.Sprintf("hint:%s/%d", name, n), modes)
+		one := big.NewInt(1)
+		flip := func(i int) {
+			if i >= 0 && i < n {
+				out[i] = new(big.Int).Xor(out[i], one)
+			}
+		}
+		setBits := func(v *big.Int) bool {
+			if v.Sign() < 0 || v.BitLen() > n {
+				return false
+			}
+			for i := range out {
+				out[i] = big.NewInt(int64(v.Bit(i)))
+			}
+			return true
+		}
+		switch m {
+		case 1:
+			out[0] = new(big.Int).Mod(new(big.Int).Add(out[0], one), q)
+		case 2:
+			out[0] = new(big.Int).Mod(new(big.Int).Sub(out[0], one), q)
+		case 3:
+			out[n-1] = new(big.Int).Mod(new(big.Int).Add(out[n-1], one), q)
+		case 4:
+			for i := range out {
+				out[i] = new(big.Int)
+			}
+		case 5:
+			for i := range out {
+				out[i] = big.NewInt(1)
+			}
+		case 6:
+			out[0] = new(big.Int).Sub(q, one)
+		case 7:
+			out[0] = new(big.Int).Lsh(one, 64)
+		case 8: // aliased decomposition: the bits of input + p (fits when the input is small)
+			if len(in) == 0 || !setBits(new(big.Int).Add(in[0], q)) {
+				flip(0)
+			}
+		case 9: // decomposition of a neighbouring value
+			if len(in) == 0 || !setBits(new(big.Int).Add(in[0], one)) {
+				flip(1)
+			}
+		case 10:
+			flip(n / 2)
+		case 11:
+			flip(n - 1)
+		}
+		return err
+	}
+}
+
+var (
+	hintNamesOnce sync.Once
+	hintNames     map[solver.HintID]string
+)
+
+func hintName(id solver.HintID) string {
+	hintNamesOnce.Do(func() {
+		hintNames = map[solver.HintID]string{}
+		for _, h := range solver.GetRegisteredHints() {
+			n := solver.GetHintName(h)
+			if i := strings.LastIndex(n, "."); i >= 0 {
+				n = n[i+1:]
+			}
+			hintNames[solver.GetHintID(h)] = n
+		}
+	})
+	if n, ok := hintNames[id]; ok {
+		return n
+	}
+	return fmt.Sprint(uint32(id))
+}
+
+func hintAdversary(c *vh.Check) {
+	if !c.Want("E") && c.Only != "" {
+		return
+	}
+	curves := []ecc.ID{ecc.BN254, ecc.BLS12_377}
+	type job struct {
+		cv      ecc.ID
+		op      ops.Op
+		pat     []string
+		builder string
+	}
+	var jobs []job
+	for _, cv := range curves {
+		for _, op := range ops.All(cv.ScalarField().BitLen()) {
+			if op.Name == "Lookup2" || op.NIn > 3 {
+				continue
+			}
+			pats := [][]string{}
+			all := func(k string) []string {
+				p := make([]string, op.NIn)
+				for i := range p {
+					p[i] = k
+				}
+				return p
+			}
+			pats = append(pats, all("S"))
+			if c.Tier == "thorough" {
+				pats = append(pats, all("D"))
+			}
+			for _, pat := range pats {
+				for _, b := range []string{circ.R1CS, circ.SCS} {
+					if op.SCSOnly && b == circ.R1CS {
+						continue
+					}
+					jobs = append(jobs, job{cv, op, pat, b})
+				}
+			}
+		}
+	}
+	ok := c.Par(len(jobs), func(i int) {
+		j := jobs[i]
+		adversaryTask(c, j.cv, j.op, j.pat, j.builder)
+	})
+	if !ok {
+		c.Cap("internal deadline in hint-adversary part (E)")
+	}
+}
+
+func adversaryTask(c *vh.Check, cv ecc.ID, op ops.Op, pat []string, builder string) {
+	field := cv.ScalarField()
+	t := task{op: op, pat: pat, builder: builder}
+	name := fmt.Sprintf("E:%s:%s/%s/%s", cv, op.Name, strings.Join(pat, ""), builder)
+	ccs, err, pan := circ.Compile(field, builder, buildCircuit(t), frontend.IgnoreUnconstrainedInputs())
+	if err != nil || pan != "" {
+		return
+	}
+	pm1 := new(big.Int).Sub(field, big.NewInt(1))
+	dom := []*big.Int{big.NewInt(0), big.NewInt(1), big.NewInt(5), new(big.Int).Rsh(field, 1), pm1}
+	if c.Quick() {
+		dom = []*big.Int{big.NewInt(0), big.NewInt(5), pm1}
+	}
+	nv, _ := nvars(pat)
+	var tuples [][]*big.Int
+	var rec func(cur []*big.Int)
+	rec = func(cur []*big.Int) {
+		if len(cur) == nv {
+			tuples = append(tuples, append([]*big.Int(nil), cur...))
+			return
+		}
+		for _, d := range dom {
+			rec(append(cur, d))
+		}
+	}
+	rec(nil)
+	if nv == 3 && c.Quick() {
+		tuples = tuples[:len(tuples):len(tuples)]
+		var sub [][]*big.Int
+		for i := 0; i < len(tuples); i += 4 {
+			sub = append(sub, tuples[i])
+		}
+		tuples = sub
+	}
+	var execs, solved int64
+	for _, x := range tuples {
+		in := make([]*big.Int, len(pat))
+		xi := 0
+		for k, kind := range pat {
+			switch kind {
+			case "S":
+				in[k] = x[xi]
+				xi++
+			case "D":
+				in[k] = new(big.Int).Mod(new(big.Int).Add(new(big.Int).Lsh(x[xi], 1), big.NewInt(1)), field)
+				xi++
+			}
+		}
+		ref := op.Ref(field, in)
+		if !ref.Sat || ref.Free {
+			continue
+		}
+		// claimed outputs: correct, and wrong variants
+		type claim struct {
+			name  string
+			out   []*big.Int
+			wrong bool
+		}
+		claims := []claim{{"correct", ref.Out, false}}
+		if len(ref.Out) > 0 {
+			w1 := append([]*big.Int(nil), ref.Out...)
+			w1[0] = new(big.Int).Mod(new(big.Int).Add(w1[0], big.NewInt(1)), field)
+			claims = append(claims, claim{"out[0]+1", w1, true})
+			if len(ref.Out) > 2 {
+				// the aliased decomposition of x+p as claimed bits (ToBinary)
+				v := new(big.Int).Add(in[0], field)
+				if v.BitLen() <= len(ref.Out) {
+					w2 := make([]*big.Int, len(ref.Out))
+					for i := range w2 {
+						w2[i] = big.NewInt(int64(v.Bit(i)))
+					}
+					claims = append(claims, claim{"bits-of-x+p", w2, true})
+				}
+				w3 := append([]*big.Int(nil), ref.Out...)
+				w3[len(w3)-1] = new(big.Int).Xor(w3[len(w3)-1], big.NewInt(1))
+				claims = append(claims, claim{"top-bit-flipped", w3, true})
+			}
+		}
+		for _, cl := range claims {
+			sec := append(append([]*big.Int(nil), x...), cl.out...)
+			w, err := circ.Witness(circ.Assign(nil, sec), field)
+			if err != nil {
+				c.Fatal("witness: %v", err)
+			}
+			honestSolved := false
+			bound := 2
+			if c.Quick() {
+				bound = 1 // quick: every single dishonest hint answer; thorough: every pair
+			}
+			e := &vh.Explorer{Bound: bound, Workers: 1, Stop: c.Expired}
+			e.Run = func(xc *vh.Ctx) {
+				hookCtx.Store(ccs, xc)
+				var serr error
+				p := vh.Recover(func() { _, serr = ccs.Solve(w, solver.WithNbTasks(1)) })
+				hookCtx.Delete(ccs)
+				execs++
+				ok := p == "" && serr == nil
+				if ok {
+					solved++
+				}
+				if xc.Deviations() == 0 {
+					honestSolved = ok
+				}
+				if cl.wrong && ok {
+					c.Violation(fmt.Sprintf("c05:%s:claim=%s:x=%v:hints=%v", name, cl.name, x, xc.Trace()), map[string]any{"task": name, "inputs": fmt.Sprint(x), "claimed_outputs": fmt.Sprint(cl.out), "documented_outputs": fmt.Sprint(ref.Out), "dishonest_hint_answers": xc.Trace()})
+				}
+			}
+			if !e.Explore() {
+				c.Cap("deadline inside " + name)
+				return
+			}
+			if !cl.wrong && !honestSolved {
+				c.Violation(fmt.Sprintf("c05:%s:honest-unsolved:x=%v", name, x), map[string]any{"task": name, "inputs": fmt.Sprint(x)})
+			}
+		}
+	}
+	c.Evals.Add(execs)
+	c.Traces.Add(execs)
+	c.Transitions.Add(execs)
+	cls := "no-hints"
+	if execs > int64(2*len(tuples)) {
+		cls = "hints-explored"
+	}
+	c.Outcome("E:" + op.Name + ":" + builder + ":" + cls)
+	c.Count("E-executions", op.Name, execs)
+	c.Count("E-solved-with-correct-claim", op.Name, solved)
+	if op.Name == "ToBinaryFull" && builder == circ.R1CS && cv == ecc.BN254 {
+		c.Sample(map[string]any{"part": "E", "task": name, "input_tuples": len(tuples), "executions": execs, "alphabet": "per hint call: honest, out[0]+-1, out[last]+1, all 0, all 1, p-1, 2^64, bits(in+p), bits(in+1), 3 bit flips; <=1 departure quick, <=2 thorough"})
+	}
+}
